@@ -168,7 +168,7 @@ def scenarios(ctx):
         kinds = [rnd.choice(["u", "q"])]
         if i % 2 == 1:
             kinds.append(rnd.choice(["u", "q"]))       # continued sampling, all four orders
-        out.append(dict(prior=prior, n=rnd.choice([2, 3, 5, 8]), bs=rnd.choice([1, 2, 4]), seed=rnd.randint(0, 2 ** 31 - 1),
+        out.append(dict(prior=prior, n=rnd.choice([2, 3, 5, 8]), bs=rnd.choice([1, 2, 4]), seed=(0 if i % 16 == 5 else rnd.randint(0, 2 ** 31 - 1)),
                         calls=[dict(kind=k, list=lst(k)) for k in kinds]))
     # the history of finding F22 (repaired): quantiles first, then thresholds on the same sampler
     out.append(dict(prior="uniform", n=3, bs=2, seed=5, calls=[dict(kind="q", list=[[1, 2], [1, 2]]), dict(kind="u", list=[6])]))
